@@ -287,7 +287,7 @@ package kv
 //@ func sequenceWaiterTracker.AddSequenceWaiter(swt, key) (sw)
 //@ property C16
 //@ requires swtInv(swt) && swt.idGen.v < 4611686018427387903
-//@ ensures swtInv(swt) && sw != nil && sw.key == key && sw.tracker == swt && sw.id == swt.idGen.v && swt.idGen.v == old(swt.idGen.v) + 1
+//@ ensures swtInv(swt) && sw != nil && sw.och != nil && sw.key == key && sw.tracker == swt && sw.id == swt.idGen.v && swt.idGen.v == old(swt.idGen.v) + 1
 //@ ensures inmap(swt.waiters, key) && inmap(swt.waiters[key], sw.id) && swt.waiters[key][sw.id] == sw
 //@ ensures forall k string, i sequenceWaiterID :: old(inmap(swt.waiters, k) && inmap(swt.waiters[k], i)) ==> inmap(swt.waiters, k) && inmap(swt.waiters[k], i) && swt.waiters[k][i] == old(swt.waiters[k][i])
 //@ modifies swt.idGen.v, mapof(swt.waiters), fields(map[server/kv.sequenceWaiterID]*server/kv.sequenceWaiter)
@@ -607,4 +607,45 @@ package kv
 //@ requires request != nil && d.kv != nil && d.rangeScanCounter != nil && d.listLatencyHisto != nil
 //@ assert at call RangeScan#0: lowerBound == request.StartInclusive && upperBound == request.EndExclusive
 //@ ensures err == nil ==> it != nil
+//@ modifies *
+
+// ---------------------------------------------------------------- sequence-update subscribers (C16)
+
+//@ ghostfun seqKey(string, int64) string
+
+//@ func SequenceWaiterTracker.AddSequenceWaiter(recv, key) (sw)
+//@ trusted
+//@ modifies fields(sequenceWaiterTracker), fields(map[string]map[server/kv.sequenceWaiterID]*server/kv.sequenceWaiter), fields(map[server/kv.sequenceWaiterID]*server/kv.sequenceWaiter)
+//@ ensures sw != nil && fresh(sw) && sw.och != nil && sw.key == key
+//@ note trusted at interface level: sequenceWaiterTracker.AddSequenceWaiter (the only implementation) is verified against a stronger contract
+
+//@ func ReverseKeyIterator.Valid
+//@ trusted
+//@ pure
+//@ nondet
+
+//@ func ReverseKeyIterator.Key
+//@ trusted
+//@ pure
+//@ nondet
+
+//@ func ReverseKeyIterator.Close
+//@ trusted
+//@ modifies nothing
+
+//@ func KV.KeyRangeScanReverse(recv, lowerBound, upperBound) (it, err)
+//@ trusted
+//@ modifies nothing
+//@ ensures err == nil ==> it != nil
+
+// A new subscriber of a sequence is first told the highest existing key of THAT sequence
+// (a reverse scan bounded by the sequence's own key range, prefix-0 .. prefix-MaxInt64),
+// never a record outside it.
+//
+//@ func db.GetSequenceUpdates(d, prefixKey) (sw, err)
+//@ property C16
+//@ requires d.kv != nil && d.sequenceWaiterTracker != nil && d.getSequenceUpdatesCounter != nil
+//@ assume at call Sprintf#0: result == seqKey(prefixKey, 0) because "meaning of the ghost function: the sequence key format applied to the prefix and a number"
+//@ assume at call Sprintf#1: result == seqKey(prefixKey, 9223372036854775807) because "meaning of the ghost function"
+//@ assert at call KeyRangeScanReverse#0: lowerBound == seqKey(prefixKey, 0) && upperBound == seqKey(prefixKey, 9223372036854775807)
 //@ modifies *
